@@ -153,6 +153,17 @@ def decode_kwargs(kwargs, mon):
             out[k] = pool
         elif isinstance(v, dict) and "__inf__" in v:
             out[k] = float("inf")
+        elif k == "flow_config" and isinstance(v, dict) and isinstance(
+                v.get("distribution"), dict):
+            # base distribution given as an object: a learnable user-defined
+            # Distribution instance (or its class)
+            from .dists import LearnableNormal
+
+            kind = v["distribution"].get("__dist__")
+            v = dict(v)
+            v["distribution"] = LearnableNormal([mon.model.dims]) \
+                if kind == "learnable-instance" else LearnableNormal
+            out[k] = v
         else:
             out[k] = v
     return out
@@ -1823,6 +1834,18 @@ def install_kill_event(mon, spec):
     wrap(FlowProposal, "populate", before_populate, None)
     wrap(FlowProposal, "train", before_train, None)
     wrap(ImportanceFlowProposal, "draw", before_ins_draw, None)
+    if ev == "uninformed_population":
+        # the k-th pool of the prior-rejection / analytic proposal
+        from nessai.proposal.analytic import AnalyticProposal
+        from nessai.proposal.rejection import RejectionProposal
+
+        def before_uninformed(self, *a, **kw):
+            st["uninformed"] = st.get("uninformed", 0) + 1
+            if st["uninformed"] == k:
+                arm()
+
+        wrap(AnalyticProposal, "populate", before_uninformed, None)
+        wrap(RejectionProposal, "populate", before_uninformed, None)
     if ev == "iteration":
         # the process dies between two iterations of the standard sampler
         # (any instant that is not a likelihood call: the pool is typically
